@@ -9,7 +9,7 @@
             stuck: the internal steps still enabled in the final state (the real server is idle when the script ends, so
                    this must be empty): L [A 1] a handler task has not run | L [A 2; A a] suspended handler | L [A 3; A a]
                    pending restart task | L [A 9; A a] coroutine waiting in pop_datagram although its queue is not empty *)
-From EN Require Import Lib.Bytes Lib.Sx Conc.DgramServer.
+From EN Require Import Lib.Bytes Lib.Sx Conc.DgramServer Conc.DgramListener.
 
 Definition dec_label (x : sx) : option label :=
   match x with
@@ -65,8 +65,30 @@ Definition stuck_of (s : state) (naddr : nat) : list sx :=
                (seq 0 naddr)
   end.
 
+(* listener kind: input = L [A (-1); L llabels]   llabel = L [A 0; A a; B d] arrive | L [A 1] serve | L [A 2] cancel
+   output = L [L dispatched (L [A a; B d]); A stuck-index or -1]                                                   *)
+Definition dec_llabel (x : sx) : option llabel :=
+  match x with
+  | L [A 0%Z; a; B d] => match as_nat a with Some a => Some (LArrive a d) | None => None end
+  | L [A 1%Z] => Some LServe
+  | L [A 2%Z] => Some LCancel
+  | _ => None
+  end.
+
+Fixpoint lexec (n : nat) (s : lstate) (ls : list llabel) : lstate * Z :=
+  match ls with
+  | [] => (s, (-1)%Z)
+  | l :: r => match lstep s l with Some s' => lexec (S n) s' r | None => (s, Z.of_nat n) end
+  end.
+
+Definition run_listener (ls : sx) : sx :=
+  do labels <- as_list_of dec_llabel ls;
+  let '(s, stuck) := lexec 0 lstate0 labels in
+  L [L (map (fun x => L [of_nat (fst x); B (snd x)]) (dispatched s)); A stuck].
+
 Definition run (i : sx) : sx :=
   match i with
+  | L (A (-1)%Z :: ls :: _) => run_listener ls
   | L (n :: ls :: _) =>
       do naddr <- as_nat n;
       do labels <- as_list_of dec_label ls;
